@@ -36,7 +36,7 @@ class ModelExec(object):
 
     def new_ex(self):
         ex = CExec(self.tu)
-        ex.uninterpreted = lib_functions(self.tu)
+        ex.uninterpreted = lib_functions(self.tu) | set(getattr(self, "extra_uninterpreted", ()))
         ex.max_unroll = 12
 
         def handler(ex_, s, st, key):
